@@ -23,6 +23,7 @@ PredSet(name) ==
       [] name = "pp2s" -> {Aff(<<<<1, 0>>, <<0, 1>>>>, <<0, 1>>), P(<<1, 1>>, 1)}
       [] name = "p3s" -> {P(<<1, 0, 0>>, 0), P(<<0, 1, 1>>, 1), P(<<1, -1, 0>>, 0)}          \* three input coordinates
       [] name = "pp2m" -> {Aff(<<<<1, 0>>, <<0, 1>>>>, <<0, 1>>), P(<<1, 0>>, 1)}     \* a two-row decision and a one-row context that separates its labels 1 and 2
+      [] name = "pp2k" -> {Aff(<<<<-1, 0>>, <<0, 1>>>>, <<-1, 0>>), P(<<1, 1>>, 1)}        \* (x >= 1, y <= 0): strictly separated from labels of (x <= 0, y <= 1)
       [] name = "pp2n" -> {Aff(<<<<1, 0>>, <<0, 1>>>>, <<0, 1>>), P(<<1, 0>>, 1), P(<<1, 0>>, -1), P(<<0, 1>>, 2)}
       [] name = "pp2" -> {Aff(<<<<1, 0>>, <<0, 1>>>>, <<0, 0>>), Aff(<<<<1, 1>>, <<1, -1>>>>, <<1, 0>>), P(<<1, 0>>, 1), P(<<0, 0>>, 1), P(<<0, 0>>, -1)}   \* the last two: constant predicates
 TermSet(name) ==
